@@ -799,6 +799,45 @@ func (s *mState) xmmVec(in *instruction) {
 				}
 				return r
 			})
+		case sseOpcodePmullw:
+			s.xmm[d] = lanes(dst, src, 16, func(x, y uint64) uint64 { return x * y })
+		case sseOpcodePmulld:
+			s.xmm[d] = lanes(dst, src, 32, func(x, y uint64) uint64 { return x * y })
+		case sseOpcodePminsb, sseOpcodePminsw, sseOpcodePminsd, sseOpcodePmaxsb, sseOpcodePmaxsw, sseOpcodePmaxsd,
+			sseOpcodePminub, sseOpcodePminuw, sseOpcodePminud, sseOpcodePmaxub, sseOpcodePmaxuw, sseOpcodePmaxud:
+			type mm struct {
+				bits        uint
+				signed, max bool
+			}
+			k := map[sseOpcode]mm{sseOpcodePminsb: {8, true, false}, sseOpcodePminsw: {16, true, false}, sseOpcodePminsd: {32, true, false},
+				sseOpcodePmaxsb: {8, true, true}, sseOpcodePmaxsw: {16, true, true}, sseOpcodePmaxsd: {32, true, true},
+				sseOpcodePminub: {8, false, false}, sseOpcodePminuw: {16, false, false}, sseOpcodePminud: {32, false, false},
+				sseOpcodePmaxub: {8, false, true}, sseOpcodePmaxuw: {16, false, true}, sseOpcodePmaxud: {32, false, true}}[op]
+			s.xmm[d] = lanes(dst, src, k.bits, func(x, y uint64) uint64 {
+				var less bool // x < y
+				if k.signed {
+					less = int64(sextLane(x, k.bits)) < int64(sextLane(y, k.bits))
+				} else {
+					less = x < y
+				}
+				r := y
+				if less != k.max {
+					r = x
+				}
+				return r
+			})
+		case sseOpcodePshufb: // dst byte j = (mask byte j has bit 7) ? 0 : old dst byte (mask & 15)
+			var out [2]uint64
+			for j := uint(0); j < 16; j++ {
+				m := (src[j/8] >> ((j % 8) * 8)) & 0xff
+				idx := m & 15
+				b := (dst[(idx>>3)&1] >> ((idx & 7) * 8)) & 0xff
+				if m&0x80 != 0 {
+					b = 0
+				}
+				out[j/8] |= b << ((j % 8) * 8)
+			}
+			s.xmm[d] = out
 		case sseOpcodePaddb:
 			s.xmm[d] = lanes(dst, src, 8, add)
 		case sseOpcodePaddw:
